@@ -684,10 +684,19 @@ impl World {
         };
         let _ = synced;
         let node = self.nodes.get_mut(&pos).unwrap();
-        let (mut out, durs) = node.engine.end_step();
+        let (mut out, mut durs) = node.engine.end_step();
         let mut cut_applied = false;
         if let Some(k) = cut {
             if outcome.is_ok() {
+                // killed right after the k-th message left: durable writes that the handler performed AFTER that message never happened
+                // (for code that persists before it sends this changes nothing)
+                if k >= 1 && out.len() >= k {
+                    let pb = out[k - 1].1;
+                    if pb + 1 < durs.len() {
+                        *node.engine.inner().state.lock().unwrap() = durs[pb].clone();
+                        durs.truncate(pb + 1);
+                    }
+                }
                 out.truncate(k);
                 cut_applied = true;
             }
